@@ -4,6 +4,7 @@
 -/
 import PV.Model.Cov
 import PV.Props.C06Alg
+import PV.Proofs.C06bLemmas
 import PV.Proofs.RealScalar
 import Mathlib.Tactic.Ring
 import Mathlib.Tactic.FieldSimp
@@ -72,6 +73,27 @@ theorem c06_model_diagonal (obs : List (Obs ℝ)) (dv : List ℝ) (i : Nat) (hi 
     show dv.getD i 0 * (covElement _ _ / Real.sqrt _ / Real.sqrt _) * dv.getD i 0 = _
     rw [div_div, hsq, div_self hpos.ne']
     ring
+
+
+/-- **C06 (Cauchy–Schwarz in the model).**  For observables without covariance inputs the element computed by the
+    model of `_covariance_element` is bounded in modulus by the number of ensembles the two observables share: per
+    ensemble it is Σ_r ⟨a_r, b_r⟩ / Σ_r √(⟨a_r, a_r⟩⟨b_r, b_r⟩) on the common configurations, of modulus at most one
+    - for every layout of replicas and configuration lists. -/
+theorem c06_model_element_bound (o1 o2 : Obs ℝ) (hc : o1.covs = []) :
+    |covElement o1 o2| ≤ ((o1.mcNames.filter (fun e => o2.mcNames.contains e)).length : ℝ) :=
+  C06m.covElement_bound o1 o2 hc
+
+/-- on a single ensemble the element lies in [-1, 1] -/
+theorem c06_model_element_single (o1 o2 : Obs ℝ) (hc : o1.covs = []) (h1 : o1.mcNames.length ≤ 1) :
+    |covElement o1 o2| ≤ 1 := by
+  refine (c06_model_element_bound o1 o2 hc).trans ?_
+  have : (o1.mcNames.filter (fun e => o2.mcNames.contains e)).length ≤ 1 :=
+    (List.length_filter_le _ _).trans h1
+  exact_mod_cast this
+
+/-- Cauchy–Schwarz for the inner product the model uses (lists of any lengths) -/
+theorem c06_dot_cauchy_schwarz (a b : List ℝ) : |dot a b| ≤ Real.sqrt (dot a a * dot b b) :=
+  C06m.abs_dot_le a b
 
 end assembled
 
